@@ -264,10 +264,11 @@ LT_NOTE = ("Trusted: Coq kernel + vm_compute; correspondence harness (reflective
 prop("C01",
      axioms="reals",
      design_ref="DESIGN.md section 5 C01",
-     technique="Rocq proof of the document-level round trip (every value's bytes parse back to the printed element tree), of the text round trip (all strings) and of the duration and date leaf round trips (all durations below 2^62 ns, all instants 1969-2068) + byte-exact in-Coq model of the encoder and of decode-after-encode checked against the real codec on generated databases; database-level round trip is PARTIAL (correspondence, not theorem)",
+     technique="Rocq proof of the document-level round trip (every value's bytes parse back to the printed element tree), of the fixed-decimal leaves through Flocq (print at dp decimals, parse to the nearest float64, print again: same text, for all values below 2^51 units of the last decimal), of the text round trip (all strings) and of the duration and date leaf round trips (all durations below 2^62 ns, all instants 1969-2068) + byte-exact in-Coq model of the encoder and of decode-after-encode checked against the real codec on generated databases; database-level round trip is PARTIAL (correspondence, not theorem)",
      text="Proved: every text of valid XML characters survives escape -> line filter -> strict reader; integer-like leaves are fixed points; durations MM:SS.cc come back floored to 1/100 s for every 0 <= d < 2^62 (C01_duration_roundtrip, decimal print/scan inverse by induction) and are then fixed points; dates come back floored to 1 s / 1/100 s for every instant 1969-01-01..2068-12-31 (C01_date_roundtrip: calendar bijection swept over all 36525 days inside Coq, time of day by arithmetic); the faithful model exhibits D22 "
           "(C01_reencode_omitempty_refuted); C01_document_roundtrip: for every value the file parses back to exactly the printed element tree (nothing lost or reordered at the XML level).  "
-          "Not proved as a theorem (partial): the leaf-by-leaf part dec(enc v) = quant v for fixed decimals and enc(quant v) = enc v for all databases - this is checked per generated "
+          "C01_fixed_decimal_reencode / C01_coordinate_reencode: for every float printing as 0 <= N < 2^51 units of the last of dp <= 22 decimals, the text is read back (nearest float64, within 2^-53+2^-64 relative, via Flocq) "
+          "as a value that prints as the same text.  Not proved as one theorem (partial): enc(quant v) = enc v for whole databases (the struct level with its omitempty rule, where D22 lives) - this is checked per generated "
           "database: the model's encoder must produce the very bytes Encode wrote, Decode's value must equal the model's quant(v) leaf by leaf, the re-encoding must be identical, "
           "gzip must gunzip to the plain bytes and the windows-1252 transcoding must decode to the same value; the reflected xml-tag schema must equal the recorded one.",
      rule="one case = one database inside the round-trip domain: 0-3 laps (0-4 fixes each with optional acceleration/OBD/TPMS blocks, intermediates, videos, tags), 0-1 vehicle lists with "
@@ -294,7 +295,7 @@ prop("C13",
 prop("C20",
      axioms="none",
      design_ref="DESIGN.md section 5 C20",
-     technique="Rocq proof of the precedence rule for all sections/flag sets/defaults (top-level options) + exhaustive computation on the start table + correspondence against the built binary (effective options read from its own -vv trace, output bytes vs library pipeline, exit status)",
+     technique="Rocq proof of the precedence rule for all sections/flag sets/defaults, for top-level options (C20_precedence) and for options in a nested table (C20_precedence_nested) + exhaustive computation on the start table + correspondence against the built binary (effective options read from its own -vv trace, output bytes vs library pipeline, exit status)",
      text="C20_precedence: for every config section, every list of given flags (any order, any values incl. empty) and every default, loadConfig's model gives flag > config > default for "
           "every option whose config key is the top-level key named like its flag (all convert and gopro convert options, tolerance); the four start-line options in the nested table are "
           "covered by exhaustive evaluation over present/absent x flag sets (after the repair D20).  Tied to the code by running the built tracktools binary: each option independently flag "
@@ -330,8 +331,9 @@ prop("C18",
      axioms="reals",
      level="proof",
      design_ref="DESIGN.md section 5 C18 and section 7",
-     technique="Rocq proofs over the reals of the algebraic clauses (symmetry, linearity in the radius, zero for identical positions, for both methods) + per-instance numeric test against an independent great-circle / distance-to-segment computation. PARTIAL: accuracy bounds are tested, not proved",
-     text="Proved over R for the formulas as written in haversine.go/equirect.go: distance symmetric, linear in the radius, zero for identical positions (default and fast method).  The accuracy "
+     technique="Rocq proofs over the reals: the default method IS radius x central angle (great-circle distance; C18_default_is_great_circle), zero only for identical positions, symmetry, linearity in the radius (both methods) + per-instance numeric test against an independent great-circle / distance-to-segment computation. PARTIAL: accuracy bounds are tested, not proved",
+     text="Proved over R for the formulas as written in haversine.go/equirect.go: the haversine formula equals radius times the angle theta in [0,pi] with cos theta = the dot product of the two unit vectors "
+          "(so it is the great-circle distance exactly, and zero only for coinciding positions); distance symmetric, linear in the radius, zero for identical positions (default and fast method).  The accuracy "
           "clauses (1e-9 relative default, 1e-5 fast under 10 km below 80 degrees, distance to a line within 1% + 1 mm) are tested per generated pair / (segment, position) against an independent "
           "float64 computation with an absolute floor of 5 nm (the oracle's resolution).",
      rule="1500 pairs 5 cm-1500 km at any bearing and |lat| < 85 (5% identical, 15% other radii) + 1500 (segment 0.5 m-1.5 km, position within +-150 m beside and -0.5..1.5 lengths along), away from the 180th meridian; "
